@@ -5,6 +5,10 @@
 //   CYN r p[3] | CYR r o[3] d[3] | CYV r x[3]
 //   BXS h[3] d[3] -> support[3] dirUsed[3] | BXB h[3] -> centre[3] radius | BXN h[3] p[3] | BXR h[3] o[3] d[3]   (the last two throw)
 //   ELN a b c p[3] -> point[3] inside normal[3]                 (Ellipsoid::findNearestPoint, for the degenerate centre query)
+//   EL nops {code r[3]}*nops kind args   ellipsoid as an OBJECT: op 0 = construct with radii r (first), 1 = setRadii(r), 2 = copy (r ignored);
+//        then one query on the resulting object:  1 x[3] -> value grad[3] hessian[9] | 2 d[3] -> support[3] dirUsed[3] | 3 q[3] -> findPointInSameDirection[3]
+//        | 4 q[3] -> findUnitNormalAtPoint[3] | 5 -> centre[3] radius | 6 -> getCurvatures[3] getRadii[3] | 7 i sign -> calcCurvature at sign*r_i e_i: kmax kmin zaxis[3]
+//   ELSEARCH seed n -> implementation-only ellipsoid predicates after random construct / setRadii / copy sequences
 //   SEARCH seed n  -> implementation-only predicates on n random queries per shape; prints FAIL lines and a DONE line
 #include "Simbody.h"
 #include <cstdio>
@@ -32,6 +36,80 @@ static void ray(const ContactGeometry& g, const Vec3& o, const Vec3& d) {
 static void valgrad(const ContactGeometry& g, const Vec3& x) { pr(g.calcSurfaceValue(x)); pr(g.calcSurfaceGradient(x)); }
 static void support(const ContactGeometry& g, const Vec3& d) { UnitVec3 u(d); pr(g.calcSupportPoint(u)); pr(u); }
 static void bsphere(const ContactGeometry& g) { Vec3 c; Real r; g.getBoundingSphere(c, r); pr(c); pr(r); }
+
+
+// ---- ellipsoid as an object
+static void elQuery(ContactGeometry::Ellipsoid& e, int kind) {
+    if (kind == 1) { Vec3 x = nv(); pr(e.calcSurfaceValue(x)); pr(e.calcSurfaceGradient(x)); Mat33 H = e.calcSurfaceHessian(x); for (int i = 0; i < 3; ++i) for (int j = 0; j < 3; ++j) pr(H(i, j)); }
+    else if (kind == 2) { UnitVec3 u(nv()); pr(e.calcSupportPoint(u)); pr(u); }
+    else if (kind == 3) pr(e.findPointInSameDirection(nv()));
+    else if (kind == 4) pr(Vec3(e.findUnitNormalAtPoint(nv())));
+    else if (kind == 5) { Vec3 c; Real r; e.getBoundingSphere(c, r); pr(c); pr(r); }
+    else if (kind == 6) { pr(e.getCurvatures()); pr(e.getRadii()); }
+    else if (kind == 7) { const int i = (int)nx(); const Real sg = nx(); Vec3 Q(0); Q[i] = sg * e.getRadii()[i]; Vec2 k; Rotation R; e.calcCurvature(Q, k, R); pr(k[0]); pr(k[1]); pr(Vec3(R.z())); }
+}
+static void runELobj() {
+    const int nops = (int)nx();
+    std::vector<ContactGeometry::Ellipsoid*> objs;      // every object stays alive; copies are new objects
+    ContactGeometry::Ellipsoid* cur = 0;
+    for (int k = 0; k < nops; ++k) {
+        const int code = (int)nx(); const Vec3 r = nv();
+        if (code == 0) cur = new ContactGeometry::Ellipsoid(r);
+        else if (code == 1) cur->setRadii(r);
+        else cur = new ContactGeometry::Ellipsoid(*cur);
+        objs.push_back(cur);
+    }
+    const int kind = (int)nx(); elQuery(*cur, kind);
+    for (size_t i = 0; i < objs.size(); ++i) if (i == 0 || objs[i] != objs[i - 1]) delete objs[i];
+}
+static void elsearch(unsigned seed, int n) {
+    std::mt19937_64 rng(seed); std::uniform_real_distribution<double> U(-1, 1);
+    auto rr = [&]() { return Vec3(0.3 + 2.2 * std::abs(U(rng)), 0.3 + 2.2 * std::abs(U(rng)), 0.3 + 2.2 * std::abs(U(rng))); };
+    auto rv = [&](double s) { return Vec3(s * U(rng), s * U(rng), s * U(rng)); };
+    auto ru = [&]() { Vec3 v; do v = rv(1); while (v.norm() < 0.2 || v.norm() > 1); return UnitVec3(v); };
+    long ev = 0; int nf = 0;
+    auto fl = [&](const char* what, const char* hist, const Vec3& r, double got, double want) {
+        if (nf < 5) std::printf("FAIL Ellipsoid:%s after %s radii=%.17g,%.17g,%.17g got=%.17g expected=%.17g\n", what, hist, r[0], r[1], r[2], got, want); ++nf; };
+    for (int it = 0; it < n; ++it) {
+        ContactGeometry::Ellipsoid* e = new ContactGeometry::Ellipsoid(rr()); std::string hist = "construct";
+        const int nops = it % 4;            // 0: fresh, 1..3 further operations
+        for (int k = 0; k < nops; ++k) {
+            if ((it / 4 + k) % 3 != 2) { e->setRadii(rr()); hist += ",setRadii"; }
+            else { ContactGeometry::Ellipsoid* c = new ContactGeometry::Ellipsoid(*e); delete e; e = c; hist += ",copy"; }
+        }
+        const Vec3 r = e->getRadii(); const char* h = hist.c_str(); ++ev;
+        // cache = reciprocal radii
+        for (int i = 0; i < 3; ++i) if (std::abs(e->getCurvatures()[i] * r[i] - 1) > 1e-12) fl("getCurvatures-not-reciprocal-radii", h, r, e->getCurvatures()[i], 1 / r[i]);
+        // point in direction lies on the surface
+        Vec3 q = rv(2); if (q.norm() < 0.05) q = Vec3(0.3, 0.1, 0);
+        Vec3 p = e->findPointInSameDirection(q);
+        if (std::abs(e->calcSurfaceValue(p)) > 1e-9) fl("findPointInSameDirection-not-on-surface", h, r, e->calcSurfaceValue(p), 0);
+        // unit normal parallel to -gradient, and the support point in direction d has normal d
+        Vec3 g = e->calcSurfaceGradient(p); UnitVec3 nrm = e->findUnitNormalAtPoint(p);
+        if ((Vec3(nrm) + g / g.norm()).norm() > 1e-9) fl("unit-normal-not-parallel-to-gradient", h, r, (Vec3(nrm) + g / g.norm()).norm(), 0);
+        UnitVec3 d = ru(); Vec3 sp = e->calcSupportPoint(d);
+        if (std::abs(e->calcSurfaceValue(sp)) > 1e-9) fl("support-not-on-surface", h, r, e->calcSurfaceValue(sp), 0);
+        if ((Vec3(e->findUnitNormalAtPoint(sp)) - Vec3(d)).norm() > 1e-9) fl("normal-at-support-point-is-not-the-direction", h, r, (Vec3(e->findUnitNormalAtPoint(sp)) - Vec3(d)).norm(), 0);
+        for (int k = 0; k < 6; ++k) { Vec3 s2 = e->findPointInSameDirection(Vec3(ru())); s2 = e->calcSurfaceValue(s2) > -1e-9 && std::abs(e->calcSurfaceValue(s2)) < 1e-9 ? s2 : Vec3(r[0] * ru()[0], 0, 0);
+            if (dot(s2, d) > dot(sp, d) + 1e-9) fl("support-not-max", h, r, dot(s2, d), dot(sp, d)); }
+        // gradient and Hessian by finite differences
+        Vec3 x = rv(1.5), dd = Vec3(ru()); const Real eps = 1e-6;
+        Real fd = (e->calcSurfaceValue(x + eps * dd) - e->calcSurfaceValue(x - eps * dd)) / (2 * eps);
+        if (std::abs(fd - dot(e->calcSurfaceGradient(x), dd)) > 1e-6) fl("gradient-not-derivative", h, r, fd, dot(e->calcSurfaceGradient(x), dd));
+        Vec3 gd = (e->calcSurfaceGradient(x + eps * dd) - e->calcSurfaceGradient(x - eps * dd)) / (2 * eps);
+        if ((gd - e->calcSurfaceHessian(x) * dd).norm() > 1e-6) fl("hessian-not-derivative-of-gradient", h, r, (gd - e->calcSurfaceHessian(x) * dd).norm(), 0);
+        // principal curvatures at an axis point: r_i / r_j^2, frame z = outward normal
+        const int i = it % 3, j = (i + 1) % 3, l = (i + 2) % 3; Vec3 Q(0); Q[i] = ((it / 3) % 2 ? -1 : 1) * r[i]; Vec2 kk; Rotation R; e->calcCurvature(Q, kk, R);
+        const Real k1 = r[i] / (r[j] * r[j]), k2 = r[i] / (r[l] * r[l]);
+        if (std::abs(kk[0] - std::max(k1, k2)) > 1e-9 * (1 + std::max(k1, k2))) fl("kmax-at-axis-point", h, r, kk[0], std::max(k1, k2));
+        if (std::abs(kk[1] - std::min(k1, k2)) > 1e-9 * (1 + std::max(k1, k2))) fl("kmin-at-axis-point", h, r, kk[1], std::min(k1, k2));
+        if ((Vec3(R.z()) - Q / Q.norm()).norm() > 1e-9) fl("curvature-frame-z-not-normal", h, r, (Vec3(R.z()) - Q / Q.norm()).norm(), 0);
+        // bounding sphere contains sampled surface points
+        Vec3 c; Real br; e->getBoundingSphere(c, br); if ((sp - c).norm() > br + 1e-12 || (p - c).norm() > br + 1e-12) fl("bounding-sphere-misses-point", h, r, (sp - c).norm(), br);
+        delete e;
+    }
+    std::printf("DONE %ld %d\n", ev, nf);
+}
 
 // ---- implementation-only predicates
 static int nfail = 0; static long nev = 0;
@@ -103,6 +181,8 @@ int main() {
         std::istringstream is(line); std::string k; is >> k; A.clear(); ai = 0;
         std::string t; while (is >> t) A.push_back(std::strtod(t.c_str(), 0));
         try {
+            if (k == "ELSEARCH") { unsigned seed = (unsigned)nx(); int n = (int)nx(); elsearch(seed, n); continue; }
+            if (k == "EL") { runELobj(); std::printf("\n"); continue; }
             if (k == "SEARCH") { unsigned seed = (unsigned)nx(); int n = (int)nx(); search(seed, n); continue; }
             if (k == "HSN") nearest(ContactGeometry::HalfSpace(), nv());
             else if (k == "HSR") { Vec3 o = nv(), d = nv(); ray(ContactGeometry::HalfSpace(), o, d); }
